@@ -26,12 +26,17 @@ def run_check(pid, family, tags, rule, corrupt=None, findings=None, crash_owner=
             extra.update(post(results) or {})
         nconf = conf.check(pid)          # defaults the daemon is built with vs. Config.tla (the scenario runs set their own schedule)
         extra["configuration_differences"] = nconf
+        nk = 0
+        if pid == "C07":                 # the real conversion kernel vs. Ledger.Convert on a grid of arguments, and the exhaustive kernel model
+            import convk
+            nk, kcov = convk.check(pid, tier)
+            extra["conversion_kernel"] = {k: kcov[k] for k in ("mc_configs", "kernel_calls_compared", "mismatches", "self_test")}
         rc = ledger.finish(pid, results, stats, tags, t0, mc=mcres, rule=rule,
                              samples=[ledger.sample_of(r) for r in results[:2]],
                              assumptions=list(assumptions) or ["fake factomd serves exactly the generated chain", "TLC and the Big.tla arithmetic",
                                                                 "pegnet OPR grader module as grading oracle"],
                              findings_matcher=findings, crash_owner=crash_owner, extra_cov=extra)
-        return 1 if nconf else rc
+        return 1 if (nconf or nk) else rc
     finally:
         shutil.rmtree(work, ignore_errors=True)
 
